@@ -91,6 +91,7 @@ fn main() {
         "C01" => dispatch(checks::auth::C01, tier, seed, replay),
         "C02" => dispatch(checks::auth::C02, tier, seed, replay),
         "C03" => dispatch(checks::c03::C03, tier, seed, replay),
+        "C04" => dispatch(checks::c04::C04, tier, seed, replay),
         "C05" => dispatch(checks::c05::C05, tier, seed, replay),
         "C06" => dispatch(checks::c06::C06, tier, seed, replay),
         "C09" => dispatch(checks::c09::C09, tier, seed, replay),
